@@ -25,18 +25,18 @@ func main() {
 	flag.Parse()
 	if *in == "" || *out == "" {
 		fmt.Fprintln(os.Stderr, "usage: kdrive -in cases -out obs [-from n]")
-		os.Exit(2)
+		os.Exit(3)
 	}
 	f, err := os.Open(*in)
 	if err != nil {
 		fmt.Fprintln(os.Stderr, err)
-		os.Exit(2)
+		os.Exit(3)
 	}
 	defer f.Close()
 	o, err := os.OpenFile(*out, os.O_CREATE|os.O_WRONLY|os.O_APPEND, 0644)
 	if err != nil {
 		fmt.Fprintln(os.Stderr, err)
-		os.Exit(2)
+		os.Exit(3)
 	}
 	defer o.Close()
 	sc := bufio.NewScanner(f)
@@ -56,7 +56,7 @@ func main() {
 		dec.UseNumber()
 		if err := dec.Decode(&c); err != nil {
 			fmt.Fprintf(os.Stderr, "bad case line %d: %v\n", i, err)
-			os.Exit(2)
+			os.Exit(3)
 		}
 		res := runCase(c)
 		b := encode(res)
@@ -64,7 +64,7 @@ func main() {
 		// output tells the supervisor which case was running at a crash
 		if _, err := o.Write(append(b, '\n')); err != nil {
 			fmt.Fprintln(os.Stderr, err)
-			os.Exit(2)
+			os.Exit(3)
 		}
 	}
 }
